@@ -421,6 +421,28 @@ def _numeric_expr(e):
     return False
 
 
+def _numeric_name(fnode, name):
+    """every binding of `name` in the function is syntactically a number (a numeric expression, or one of the two results of divmod)"""
+    seen = False
+    for n in ast.walk(fnode):
+        if isinstance(n, ast.arg) and n.arg == name:
+            return False
+        if isinstance(n, (ast.For, ast.comprehension)) and any(isinstance(x, ast.Name) and x.id == name for x in ast.walk(n.target)):
+            return False
+        if isinstance(n, (ast.Assign, ast.AugAssign, ast.AnnAssign)):
+            tgs = n.targets if isinstance(n, ast.Assign) else [n.target]
+            for t in tgs:
+                if isinstance(t, ast.Name) and t.id == name:
+                    if n.value is None or not _numeric_expr(n.value):
+                        return False
+                    seen = True
+                elif isinstance(t, (ast.Tuple, ast.List)) and any(isinstance(x, ast.Name) and x.id == name for x in t.elts):
+                    if not (isinstance(n.value, ast.Call) and isinstance(n.value.func, ast.Name) and n.value.func.id == 'divmod'):
+                        return False
+                    seen = True
+    return seen
+
+
 def _base_name(e):
     while isinstance(e, (ast.Subscript, ast.Attribute)):
         e = e.value
@@ -1654,7 +1676,7 @@ class FA:
     def s_AugAssign(self, st, s):
         v = self.ev(st, s.value)
         numeric = v.const is not None and isinstance(v.const[1], (int, float, str, bool))
-        if not numeric and _numeric_expr(s.value):
+        if not numeric and (_numeric_expr(s.value) or (isinstance(s.value, ast.Name) and _numeric_name(self.node, s.value.id))):
             numeric = True
             self.assume('an augmented assignment with a numeric right-hand side acts on a number, not on a numpy array')
         if isinstance(s.target, ast.Name):
